@@ -151,3 +151,124 @@ def check_C15(run):
         exhaustive=False,
         assumptions=["expiry is injected (a net.Error with Timeout()=true), the deadline arithmetic of real listeners is covered by the real-clock part",
                      "controlled listener records SetDeadline/Accept/Close and never delays by itself"])
+
+
+# ---------------------------------------------------------------------------------------- C16
+import subprocess, tempfile, collections, time as _time
+
+
+def parse_race_reports(text):
+    """-> list of (signature, report text).  signature: sorted pair of (access kind, first library function or top frame)"""
+    out = []
+    for rep in text.split("WARNING: DATA RACE")[1:]:
+        rep = rep.split("==================")[0]
+        parts = re.split(r"\n(?=(?:Previous )?(?:[Ww]rite|[Rr]ead|[Aa]tomic \w+) (?:at|of) )", rep)
+        accs = [p for p in parts if re.match(r"\s*(Previous )?([Ww]rite|[Rr]ead|[Aa]tomic)", p)]
+        sig = []
+        anylib = False
+        for a in accs[:2]:
+            a = re.split(r"\n\s*\n", a)[0]
+            kind = re.match(r"\s*(?:Previous )?(\w+)", a).group(1).lower()
+            fr = re.findall(r"^\s+([\w./*()\[\]\-·]+)\(\)\n\s+(\S+?):(\d+)", a, re.M)
+            lib = [f[0] for f in fr if f[0].startswith("github.com/varlink/go/")]
+            harness = [f[0] for f in fr if f[0].startswith("main.") or "verif/harness" in f[0]]
+            if lib:
+                anylib = True
+                sig.append(kind + " " + lib[0].replace("github.com/varlink/go/", ""))
+            elif harness:
+                sig.append(kind + " harness:" + harness[0])
+            else:
+                sig.append(kind + " " + (fr[0][0] if fr else "?"))
+        out.append((tuple(sorted(sig)), anylib, rep[:4000]))
+    return out
+
+
+def check_C16(run):
+    thorough = run.tier == "thorough"
+    # model: every access to the shared Service fields is ordered by the mutex (design); refuted under the old deviation
+    run.model_check("ServiceMC", svc_mc_cfg(rounds=1), "Service: NoRace over per-action access sets, all interleavings (design)", timeout=900)
+    run.expect_counterexample("ServiceMC", svc_mc_cfg(dev='{"UnlockedRunning"}', props=False), "NoRace", invariant="NoRace", timeout=600)
+    g = run.generate("ServiceRace", "INIT Init\nNEXT Next\n", ["race_combos.ndjson"])
+    combos = g["race_combos.ndjson"]
+    run.extra["combination_space"] = len(combos)
+    reps = 60 if thorough else 15
+    drv = run.driver(race=True)
+    k = 12
+    parts = [combos[i::k] for i in range(k)]
+    wd = tempfile.mkdtemp(prefix="race-", dir=run.scratch)
+    procs = []
+    for i, p in enumerate(parts):
+        sf = os.path.join(wd, "c%d.ndjson" % i)
+        open(sf, "w").write("\n".join(p) + "\n")
+        env = dict(os.environ, GORACE="log_path=%s halt_on_error=0 history_size=3" % os.path.join(wd, "rl%d" % i))
+        procs.append(subprocess.Popen([drv, "race", "-scen", sf, "-reps", str(reps), "-seed", str(run.seed * 100 + i)],
+                                      stdout=subprocess.PIPE, stderr=subprocess.PIPE, text=True, env=env))
+    runs = 0
+    errs = ""
+    for pr in procs:
+        try:
+            so, se = pr.communicate(timeout=1500)
+        except subprocess.TimeoutExpired:
+            pr.kill()
+            raise Inconclusive("race driver timed out")
+        errs += se
+        m = re.search(r'"runs":(\d+)', so)
+        if m:
+            runs += int(m.group(1))
+        elif pr.returncode not in (0, 66):
+            raise Inconclusive("race driver failed rc=%s: %s" % (pr.returncode, se[-2000:]))
+    text = errs
+    for f in os.listdir(wd):
+        if f.startswith("rl"):
+            text += open(os.path.join(wd, f), errors="replace").read()
+    reports = parse_race_reports(text)
+    bysig = collections.OrderedDict()
+    for sig, anylib, rep in reports:
+        bysig.setdefault(sig, [anylib, rep, 0])
+        bysig[sig][2] += 1
+    known = {tuple(sorted(k["signature_pair"])): k for k in open_findings("C16") if "signature_pair" in k}
+    harness_only = [s for s, v in bysig.items() if not v[0]]
+    if harness_only:
+        raise Inconclusive("data race inside the harness itself (no library frame): %s\n%s" % (harness_only[0], bysig[harness_only[0]][1][:1500]))
+    for sig, (anylib, rep, n) in bysig.items():
+        if sig in known:
+            run.known_finding(known[sig]["id"], known[sig]["text"])
+        else:
+            run.violation("data race reported by the Go race detector between [%s] and [%s] (%d reports)" % (sig[0], sig[-1], n),
+                          {"kind": "race", "signature_pair": list(sig), "report": rep})
+    if "RACE-DRIVER: serving call did not return" in text:
+        run.violation("a serving call did not return within 5s of repeated Shutdown during the concurrent-use stress", {"kind": "hang", "stderr": errs[-3000:]})
+    run.evaluations = runs
+    run.nontrivial = len(combos)
+    run.traces_validated = 0
+    run.add_samples([json.loads(c) for c in combos[:3]])
+    run.extra["race_reports"] = len(reports)
+    run.extra["distinct_race_pairs"] = [list(s) for s in bysig]
+    run.extra["repetitions_per_combination"] = reps
+    run.write_evidence("model_checking",
+        "combinations = TLC-enumerated set Combos of spec/ServiceRace.tla (every pair/triple of {Shutdown, GetListener, RegisterInterface attempt} and client behaviours {call, cancelled call, abort, upgrade I/O} x phase {starting, bound+starting, serving, draining}; second Bind while serving), each run %d times with seeded random start offsets under the Go race detector; evaluations = executions; distinct_nontrivial = distinct combinations executed" % reps,
+        exhaustive=False,
+        assumptions=["the Go race detector is the judge on the real code (happens-before; only executed pairs are judged)",
+                     "TLC decides the model-level NoRace property on per-action access sets transcribed from service.go",
+                     "no trace is recorded between the operations (a shared log would order them and mask races)"])
+
+
+def check_C13(run):
+    thorough = run.tier == "thorough"
+    run.model_check("ServiceMC", svc_mc_cfg(clients="{k1}", ifaces='{"i1", "i2"}', rounds=2, binds=2, timeouts=0),
+                    "Service: registration (two names, duplicates, while serving, between rounds) x serve rounds x Shutdown: RegistrationOrder, NoDupNames, all interleavings", timeout=900)
+    s = gen_schedules(run, svc_gen_cfg(8, clients='{"k1"}', ifaces='{"i1", "i2"}', rounds=2, timeouts=0, binds=2), timeout=900)
+    sel = [x for x in s if '"op":"Register"' in x and '"introspect"' in x]
+    run.extra["schedule_space"] = {"len8_with_register_and_introspection": len(sel), "len8_all": len(s)}
+    if not thorough:
+        sel = run.rng.sample(sel, min(len(sel), 900))
+    else:
+        sel = run.rng.sample(sel, min(len(sel), 8000))
+    nt = lambda c: any('"ev":"Introspect"' in l for l in c) and any('"res":"refused"' in l for l in c)
+    replay_validate(run, sel, ["service"], "ServiceTrace", svc_trace_cfg(), "C13 registration histories with client-side introspection",
+                    nontrivial=nt, classify=svc_classify("C13"), shards=16)
+    run.write_evidence("model_checking",
+        "histories = environment histories of spec/ServiceGen.tla over {Register i1/i2 (incl. duplicates, while serving, between rounds), Install, Serve, Connect, Deliver, Shutdown, End(introspect): GetInfo + GetInterfaceDescription through the client helpers} up to 8 actions (seeded sample); identity strings and description texts contain non-ASCII, <>&, U+2028 and an empty version; non-trivial = an introspection happened and at least one registration was refused",
+        exhaustive=False,
+        assumptions=["descriptions are compared byte for byte by the recorder and logged as tokens d:<name>",
+                     "the window between Bind and the accept loop is explored by TLC only (registration while listening is forced at the gate 'parked in Accept')"])
